@@ -194,216 +194,8 @@ def check(ctx):
                "in both passes the resource is self.__resources.setdefault(task.resource, Resource(task.resource)), on every "
                "path of the pass that schedules the task, and calc returns list(self.__resources.values())", floor=6)
 
-    def table(o):
-        for S in BOTH:
-            f = prog.func(S['pass_'])
-            cfg = cfg_of(f)
-            found = []
-            exf0 = Expander(prog, f, ctx.typer)
-            for c in facts.calls_named(f, 'setdefault'):
-                m = match(f"self.{S['resources']}.setdefault($k, Resource($k2))", c)
-                if m:
-                    found.append((c, m))
-                    continue
-                m = match(f"self.{S['resources']}.setdefault($k, $v)", c)
-                if m:
-                    v = exf0.expand(m['v'], cfg.node_containing(c))
-                    mod_vars = {t_.id for st_ in f.module.tree.body if isinstance(st_, (ast.Assign, ast.AnnAssign))
-                                for t_ in (st_.targets if isinstance(st_, ast.Assign) else [st_.target]) if isinstance(t_, ast.Name)} - {'DEFAULT_CALENDAR'}
-                    glob = [x for x in ast.walk(v) if isinstance(x, ast.Name) and x.id in mod_vars and x.id not in f.params]
-                    if glob:
-                        found.append((c, None))
-                        o.refute(f, c, c, f"the default resource is taken from the module-level `{glob[0].id}` (`{src(v)[:60]}`): one Resource object per "
-                                          f"name is shared by every scheduler and calc() call in the process, so a resource edited after one schedule "
-                                          f"is no longer the default Monday-Friday 8-unit resource of the next")
-                        continue
-                    if isinstance(v, ast.Call) and isinstance(v.func, ast.Name) and v.func.id == 'Resource':
-                        extra = list(v.args[1:]) + [k.value for k in v.keywords if k.arg != 'name']
-                        name_arg = v.args[0] if v.args else next((k.value for k in v.keywords if k.arg == 'name'), None)
-                        if extra and not all(isinstance(x, ast.Name) and x.id == 'DEFAULT_CALENDAR' for x in extra):
-                            found.append((c, None))
-                            o.refute(f, c, c, f"the default resource is created as `{src(v)[:70]}`: with an explicit calendar instead of the default "
-                                              f"Monday-Friday 8-unit calendar")
-                        elif name_arg is not None:
-                            found.append((c, {'k': m['k'], 'k2': name_arg}))
-                    elif isinstance(m['v'], ast.Call):
-                        # the default comes from a package helper: follow it.  A helper that answers from module-level / class-level
-                        # state (a cache of default resources) hands the SAME Resource object to every scheduler and calc() call
-                        tg = [ci for ci in ctx.cg.calls_in(f) if ci.node is m['v'] and ci.kind == 'call' and ci.targets]
-                        if len(tg) == 1 and len(tg[0].targets) == 1:
-                            h = tg[0].targets[0]
-                            exh = Expander(prog, h, ctx.typer)
-                            mod_names = {t_.id for st_ in h.module.tree.body if isinstance(st_, (ast.Assign, ast.AnnAssign))
-                                         for t_ in (st_.targets if isinstance(st_, ast.Assign) else [st_.target]) if isinstance(t_, ast.Name)}
-                            shared, fresh, other = [], [], []
-                            for r_ in [n for n in walk_no_nested(h.node) if isinstance(n, ast.Return) and n.value is not None]:
-                                rv = exh.expand(r_.value)
-                                roots = {x.id for x in ast.walk(rv) if isinstance(x, ast.Name) and x.id in mod_names and x.id not in h.params
-                                         and x.id != 'DEFAULT_CALENDAR'}
-                                if roots:
-                                    shared.append((r_, sorted(roots)[0]))
-                                elif isinstance(rv, ast.Call) and isinstance(rv.func, ast.Name) and rv.func.id == 'Resource' and len(rv.args) == 1 \
-                                        and not rv.keywords and isinstance(rv.args[0], ast.Name) and rv.args[0].id in h.params:
-                                    fresh.append(r_)
-                                else:
-                                    other.append(r_)
-                            if shared:
-                                found.append((c, None))
-                                o.refute(f, c, c, f"the default resource comes from `{src(m['v'])[:50]}`, which answers from the module-level "
-                                                  f"`{shared[0][1]}` ({h.qual}): one Resource object per name is shared by every scheduler and calc() call "
-                                                  f"in the process, so a resource edited after one schedule is no longer the default Monday-Friday "
-                                                  f"8-unit resource of the next")
-                            elif fresh and not other and len(m['v'].args) == 1:
-                                pi = h.params.index(exh.expand(fresh[0].value).args[0].id)
-                                if pi == 0:
-                                    found.append((c, {'k': m['k'], 'k2': m['v'].args[0]}))
-            membership_form = set()
-            for n in walk_no_nested(f.node):
-                # `if k not in self.R: self.R[k] = Resource(k)`  ==  self.R.setdefault(k, Resource(k))
-                if isinstance(n, ast.Assign) and len(n.targets) == 1:
-                    mt = match(f"self.{S['resources']}[$k]", n.targets[0])
-                    mv = match("Resource($k2)", exf0.expand(n.value, cfg.node_of(n)))
-                    if mt and mv:
-                        found.append((n, {'k': mt['k'], 'k2': mv['k2']}))
-                        membership_form.add(id(n))
-            if not found:
-                # spelled otherwise (subscript store under `not in`, dict.get + store, registration moved to calc / a helper)?
-                registering = [n for fq in prog.all_funcs() if fq.cls == S['cls'] and fq.name != '__init__' for n in walk_no_nested(fq.node)
-                               if (isinstance(n, ast.Subscript) and isinstance(n.ctx, ast.Store) and isinstance(n.value, ast.Attribute) and n.value.attr == S['resources'])
-                               or (isinstance(n, ast.Call) and isinstance(n.func, ast.Attribute) and n.func.attr in ('setdefault', 'update', '__setitem__')
-                                   and isinstance(n.func.value, ast.Attribute) and n.func.value.attr == S['resources'])]
-                if registering:
-                    o.undecided(f, f.node, 'setdefault', f"resources are registered in a form the rule does not follow (`{src(registering[0])[:60]}`)")
-                else:
-                    o.refute(f, f.node, 'setdefault', f"no `self.{unmangle(S['resources'])}.setdefault(task.resource, Resource(task.resource))` in the pass "
-                                                      f"(and no other store into the resource table): resources named by tasks are not registered")
-                continue
-            task_p = f.params[1]
-            exf = Expander(prog, f, ctx.typer)
-            for c, m in found:
-                if m is None:
-                    continue
-                cn_ = cfg.node_containing(c)
-                k1, k2 = exf.expand(m['k'], cn_), exf.expand(m['k2'], cn_)
-                if not (match(f"{task_p}.resource", k1) and same(k1, k2)):
-                    o.refute(f, c, c, "resource table is not keyed by the task's resource name / default resource gets another name")
-                    continue
-                conds = facts.node_conditions(prog, f, c, ctx.typer, expand=True)
-                body0 = [s_ for s_ in f.body if not (isinstance(s_, ast.Expr) and isinstance(s_.value, ast.Constant))]
-                entry = body0[0] if body0 and isinstance(body0[0], ast.If) and not body0[0].orelse and body0[0].body and \
-                    isinstance(body0[0].body[-1], ast.Return) else None
-                if entry is not None:
-                    # the early return that opens the pass (the memo test, in whatever form it is kept) guards everything below it
-                    raw = [(t, p) for t, p in cfg.conditions(cn_) if not (t is entry.test and not p)]
-                    conds = []
-                    for t, p in raw:
-                        conds += facts.split_conj(exf.expand(t, cfg.node_containing(t)), p)
-                others = [(t, p) for t, p in conds if not facts.cond_is(t, p, f"{task_p}.id in $c", want=False)]
-                if id(c) in membership_form:
-                    guard = [(t, p) for t, p in others if (lambda mm: mm is not None and same(exf.expand(mm['k'], cn_), k1))(
-                        facts.cond_is(t, p, f"$k in self.{S['resources']}", want=False))]
-                    if not guard:
-                        o.refute(f, c, c, "the resource table entry of the task's resource is overwritten with a fresh default resource "
-                                          "(store not guarded by `name not in table`): a resource supplied by the caller is replaced")
-                        continue
-                    others = [x for x in others if x not in guard]
-                if others:
-                    o.refute(f, c, c, "default resource registration is conditional (" + ', '.join(facts.cond_texts(others)) +
-                             "): a resource named only by a summary or milestone task would be missing from the result")
-                else:
-                    o.site(f, c, src(c))
-                # the resource handed to search / fill is this one
-            calc = prog.func(S['calc'])
-            rets = [n for n in walk_no_nested(calc.node) if isinstance(n, ast.Return)]
-            okret = False
-            for r in rets:
-                if isinstance(r.value, ast.Call) and getattr(r.value.func, 'id', '') == 'Schedule' and len(r.value.args) >= 3:
-                    ex = Expander(prog, calc, ctx.typer)
-                    a1 = ex.expand(r.value.args[1])
-                    if match(f"list(self.{S['resources']}.values())", a1):
-                        okret = True
-                        o.site(calc, r, 'resources=' + src(a1))
-                    else:
-                        o.refute(calc, r, r.value.args[1], "Schedule.resources is not list(self.__resources.values())")
-                        okret = True
-            if not okret:
-                o.undecided(calc, calc.node, 'return', "calc does not return Schedule(clone, resources, report) positionally")
-            init = prog.func(S['init'])
-            ok = False
-            for st, tgt, val in facts.attr_stores(init, S['resources']):
-                m = match("{} if $p is None else {$r.name: $r for $r in $p}", val) or \
-                    match("{$r.name: $r for $r in $p} if $p is not None else {}", val) or \
-                    match("{$r.name: $r for $r in $p} if $p else {}", val)
-                exi = Expander(prog, init, ctx.typer)
-                vx = exi.expand(val, cfg_of(init).node_of(st))
-                m = m or match("{} if $p is None else {$r.name: $r for $r in $p}", vx) or \
-                    match("{$r.name: $r for $r in $p} if $p is not None else {}", vx) or \
-                    match("{$r.name: $r for $r in $p} if $p else {}", vx) or match("{$r.name: $r for $r in $p or []}", vx) or \
-                    match("{$r.name: $r for $r in $p or ()}", vx)
-                dcs = [n for n in ast.walk(vx) if isinstance(n, ast.DictComp)]
-                if not m and (match("{}", vx) or match("dict()", vx)):
-                    # empty table filled by a loop: `for r in resources [or []]: self.R[r.name] = r`
-                    for lp in [n for n in walk_no_nested(init.node) if isinstance(n, ast.For) and isinstance(n.target, ast.Name)]:
-                        src_ok = any(isinstance(x, ast.Name) and x.id in init.params for x in ast.walk(lp.iter))
-                        sts_ = [x for x in lp.body if isinstance(x, ast.Assign) and len(x.targets) == 1 and
-                                match(f"self.{S['resources']}[{lp.target.id}.name]", x.targets[0]) and match(lp.target.id, x.value)]
-                        if src_ok and len(sts_) == 1 and len(lp.body) == 1:
-                            m = {'loop': lp}
-                if m:
-                    ok = True
-                    o.site(init, st, src(val))
-                elif dcs and not any(match("$r.name", n.key) and isinstance(n.value, ast.Name) and match("$r.name", n.key)['r'].id == n.value.id for n in dcs):
-                    o.refute(init, st, val, f"resource table is `{src(vx)[:70]}`: not keyed {{r.name: r}} (tasks find their resource by name)")
-                    ok = True
-                else:
-                    o.undecided(init, st, val, f"resource table is initialised as `{src(vx)[:70]}`, a form the rule does not follow")
-                    ok = True
-            if not ok:
-                o.undecided(init, init.node, '__init__', "resource table initialisation not found")
-        rinit = prog.func('resource.Resource.__init__')
-        a = rinit.node.args
-        defaults = dict(zip([x.arg for x in a.args][-len(a.defaults):], a.defaults)) if a.defaults else {}
-        d = defaults.get('calendar')
-        if isinstance(d, ast.Name) and d.id == 'DEFAULT_CALENDAR':
-            o.site(rinit, rinit.node, 'calendar=DEFAULT_CALENDAR')
-        elif isinstance(d, ast.Constant) and d.value is None:
-            # None default resolved in the body: `if calendar is None: calendar = DEFAULT_CALENDAR` / conditional expression
-            exr = Expander(prog, rinit, ctx.typer)
-            stores = [(st_, exr.expand(v_, cfg_of(rinit).node_of(st_))) for st_, t_, v_ in facts.attr_stores(rinit) if 'calendar' in t_.attr]
-            good_ = [st_ for st_, v_ in stores if match("DEFAULT_CALENDAR if calendar is None else calendar", v_) or
-                     match("calendar if calendar is not None else DEFAULT_CALENDAR", v_)]
-            if good_:
-                o.site(rinit, good_[0], 'calendar=None -> DEFAULT_CALENDAR')
-            elif any('DEFAULT_CALENDAR' in src(v_) for st_, v_ in stores):
-                o.undecided(rinit, rinit.node, 'calendar default', "Resource() resolves a missing calendar in a form the rule does not follow")
-            else:
-                o.refute(rinit, rinit.node, 'calendar default', "Resource() does not default to DEFAULT_CALENDAR")
-        elif d is None:
-            o.refute(rinit, rinit.node, 'calendar default', "Resource() has no default calendar: the default resource created by the schedulers cannot be built")
-        elif isinstance(d, ast.Call):
-            o.refute(rinit, rinit.node, 'calendar default', f"Resource() defaults to `{src(d)[:60]}`, not to DEFAULT_CALENDAR (Monday-Friday, 8 units)")
-        else:
-            o.undecided(rinit, rinit.node, 'calendar default', f"Resource() defaults its calendar to `{src(d)[:60]}`")
-        cal = prog.module('calendar')
-        dc = None
-        for st in cal.tree.body:
-            if isinstance(st, ast.Assign) and any(isinstance(t, ast.Name) and t.id == 'DEFAULT_CALENDAR' for t in st.targets):
-                dc = st
-        if dc is None:
-            o.fail("DEFAULT_CALENDAR not found")
-            return
-        kw = {k.arg: k.value for k in dc.value.keywords} if isinstance(dc.value, ast.Call) else {}
-        try:
-            days = sorted(ast.literal_eval(kw['days']))
-            units = ast.literal_eval(kw['units_per_day'])
-        except Exception:
-            days = units = None
-        if getattr(dc.value.func, 'id', None) == 'WeeklyCalendar' and days == [0, 1, 2, 3, 4] and units == 8 \
-                and 'start' not in kw and 'end' not in kw:
-            o.site(None, None, f"calendar.py:{dc.lineno} DEFAULT_CALENDAR = Monday-Friday, 8 units")
-        else:
-            o.refute(None, dc, dc.value, "DEFAULT_CALENDAR is not WeeklyCalendar(days=[0..4], units_per_day=8)")
-    ctx.guarded(o, table)
+    ctx.guarded(o, lambda o: resource_table(ctx, o, BOTH))
+    ctx.guarded(o, lambda o: default_calendar(ctx, o))
 
     # ------------------------------------------------------------------------------------------------ None -> 0, pure
     o = ctx.ob('capacity_none_is_zero', 'R8',
@@ -808,7 +600,14 @@ def ledger_shape(ctx, o):
                 names.add('year')
         partial = names & {'tm_yday', 'tm_mday', 'tm_wday', 'tm_mon', 'day', 'month', 'weekday', 'isoweekday', 'hour'}
         whole = names & {'year', 'tm_year', 'toordinal', 'date', 'timestamp', 'isoformat', '_ResourceUsage__get_key', 'isocalendar'}
-        if day_idx and partial and not whole:
+        pcr = facts.node_conditions(prog, qf, r, ctx.typer)
+        task_pinned_none = len(qp) > 3 and any(facts.cond_is(t, p, f"{qp[3]} is None", want=True) for t, p in pcr)
+        if len(qp) > 3 and idx and not task_pinned_none and not any(isinstance(x, ast.Name) and x.id == qp[3] for x in ast.walk(v)) \
+                and not isinstance(v, ast.Constant):
+            o.refute(qf, r, r, f"the ledger answers `{src(v)[:70]}` without looking at `{qp[3]}` on a path that also serves per-task queries "
+                               f"(`{qp[3]}` given): with balancing off a task sees the bookings of other tasks (a full day of an unrelated task "
+                               f"looks occupied)")
+        elif day_idx and partial and not whole:
             o.refute(qf, r, day_idx[0], f"the ledger answers `{src(v)[:80]}` from an index keyed by `{src(day_idx[0])[:60]}`, which is only a part of "
                                         f"the date ({', '.join(sorted(partial))}): bookings of different calendar days share one entry, so free days "
                                         f"look booked (the ledger key is midnight({qp[2]}))")
@@ -834,6 +633,44 @@ def ledger_shape(ctx, o):
         atoms = []
         for t, pol in c.conds:
             atoms += facts.split_conj(exq.expand(t, exq.flow.node_of_expr(t) or exq.flow.node_of_expr(c.node)), pol)
+        # decision table over R = row.resource == resource, D = row.date == midnight(date), T = task is None, E = row.task == task:
+        # the rows summed must be exactly those with R and D and (T or E).  Handles conditional expressions and any nesting of
+        # and/or/not; falls back to the atom-wise reading below when an atom is not one of the four.
+        if len(qp) > 3:
+            pconds = facts.node_conditions(prog, qf, c.node, ctx.typer, expand=True)
+            pconds = [(t, p) for t, p in pconds if not any(t is t0 for t0, _ in c.conds)]
+            try:
+                verdict = None
+                for T in (True, False):
+                    env0 = dict(T=T, task=qp[3], res=qp[1], day=qp[2], row=tgt.id)
+                    if not all(_row_eval(t, dict(env0, R=True, D=True, E=True)) == p for t, p in pconds
+                               if not any(isinstance(x, ast.Name) and x.id == tgt.id for x in ast.walk(t))):
+                        continue        # this site is not reached for this value of `task is None`
+                    for R in (True, False):
+                        for D in (True, False):
+                            for E in ((False,) if T else (True, False)):
+                                env = dict(env0, R=R, D=D, E=E)
+                                got = all(_row_eval(a, env) == pol for a, pol in atoms)
+                                want = R and D and (T or E)
+                                if got and not want and verdict is None:
+                                    verdict = ("ledger sum does not filter by resource" if not R else
+                                               "ledger sum does not filter by day" if not D else
+                                               f"the ledger sum that answers a query for one task (`{qp[3]}` given) does not filter the rows by task: "
+                                               f"with balancing off, bookings of other tasks count against the task")
+                                elif want and not got and verdict is None:
+                                    verdict = ("the ledger sum leaves out rows of the requested resource and day" +
+                                               ("" if T else " and task") + ": booked capacity is not counted and the day looks free")
+                if verdict:
+                    o.refute(qf, c.node, c.node, verdict)
+                else:
+                    o.site(qf, c.node, "filters: resource, midnight(day), task when given (decision table)")
+                continue
+            except _BadDay as e:
+                o.refute(qf, c.node, e.args[0], f"ledger rows are compared with `{src(e.args[0])}` instead of midnight({qp[2]}): "
+                                                f"rows stored under the day key are missed")
+                continue
+            except _Unknown:
+                pass
         has_res = has_day = False
         extra = []
         path_extra = [(t, p) for t, p in facts.node_conditions(prog, qf, c.node, ctx.typer, expand=False)]
@@ -887,6 +724,55 @@ def ledger_shape(ctx, o):
             o.refute(qf, c.node, c.node, "ledger sum does not filter by day")
         else:
             o.site(qf, c.node, "filters: resource, midnight(day)" + (", " + extra[0] if extra else ''))
+
+
+class _BadDay(Exception):
+    pass
+
+
+def _row_eval(e, env):
+    """truth value of a ledger row filter under env = {R, D, T, E, task, res, day, row} (see ledger_shape)"""
+    row, task, res, day = env['row'], env['task'], env['res'], env['day']
+    if isinstance(e, ast.BoolOp):
+        is_and = isinstance(e.op, ast.And)
+        for v in e.values:
+            r = _row_eval(v, env)
+            if r is (not is_and):
+                return r
+        return is_and
+    if isinstance(e, ast.UnaryOp) and isinstance(e.op, ast.Not):
+        return not _row_eval(e.operand, env)
+    if isinstance(e, ast.IfExp):
+        return _row_eval(e.body if _row_eval(e.test, env) else e.orelse, env)
+    if isinstance(e, ast.Constant) and isinstance(e.value, bool):
+        return e.value
+    if match(f"{task} is None", e):
+        return env['T']
+    if match(f"{task} is not None", e):
+        return not env['T']
+    if isinstance(e, ast.Name) and e.id == task:
+        return not env['T']
+    if isinstance(e, ast.Compare) and len(e.ops) == 1 and isinstance(e.ops[0], (ast.Eq, ast.NotEq, ast.Is, ast.IsNot)):
+        l, r = e.left, e.comparators[0]
+        pos = isinstance(e.ops[0], (ast.Eq, ast.Is))
+        m = match(f"{row}.$f", l)
+        other = r
+        if not m:
+            m, other = match(f"{row}.$f", r), l
+        if m:
+            fld = m['f']
+            if fld == 'resource' and isinstance(other, ast.Name) and other.id == res:
+                return env['R'] == pos
+            if fld == 'date':
+                dd = facts.is_midnight_of(other)
+                if dd is not None and src(dd) == day:
+                    return env['D'] == pos
+                raise _BadDay(other)
+            if fld == 'task' and isinstance(other, ast.Name) and other.id == task:
+                if env['T']:
+                    return not pos          # no stored row has task None
+                return env['E'] == pos
+    raise _Unknown(src(e))
 
 
 def _same_day(a, b):
@@ -973,3 +859,269 @@ def _origin_node(f, amount_expr, sub, ex):
             if cn is not None:
                 return cn
     return None
+
+
+def resource_table(ctx, o, Ss):
+    """both passes register the task's resource by name with a fresh default Resource; calc returns the table; __init__ keys it by name"""
+    prog = ctx.prog
+    for S in Ss:
+        f = prog.func(S['pass_'])
+        cfg = cfg_of(f)
+        found = []
+        exf0 = Expander(prog, f, ctx.typer)
+        for c in facts.calls_named(f, 'setdefault'):
+            m = match(f"self.{S['resources']}.setdefault($k, Resource($k2))", c)
+            if m:
+                found.append((c, m))
+                continue
+            m = match(f"self.{S['resources']}.setdefault($k, $v)", c)
+            if m:
+                v = exf0.expand(m['v'], cfg.node_containing(c))
+                mod_vars = {t_.id for st_ in f.module.tree.body if isinstance(st_, (ast.Assign, ast.AnnAssign))
+                            for t_ in (st_.targets if isinstance(st_, ast.Assign) else [st_.target]) if isinstance(t_, ast.Name)} - {'DEFAULT_CALENDAR'}
+                glob = [x for x in ast.walk(v) if isinstance(x, ast.Name) and x.id in mod_vars and x.id not in f.params]
+                if glob:
+                    found.append((c, None))
+                    o.refute(f, c, c, f"the default resource is taken from the module-level `{glob[0].id}` (`{src(v)[:60]}`): one Resource object per "
+                                      f"name is shared by every scheduler and calc() call in the process, so a resource edited after one schedule "
+                                      f"is no longer the default Monday-Friday 8-unit resource of the next")
+                    continue
+                if isinstance(v, ast.Name) and v.id not in f.params and not flow_of(f).defs_of(v.id):
+                    found.append((c, None))
+                    o.refute(f, c, c, f"every resource name nobody supplied is registered as the one shared object `{v.id}` instead of a Resource "
+                                      f"of its own: different names share one identity in the usage ledger (they compete for one capacity), and "
+                                      f"the result contains no resource with the task's name")
+                    continue
+                if isinstance(v, ast.Call) and isinstance(v.func, ast.Name) and v.func.id == 'Resource':
+                    extra = list(v.args[1:]) + [k.value for k in v.keywords if k.arg != 'name']
+                    name_arg = v.args[0] if v.args else next((k.value for k in v.keywords if k.arg == 'name'), None)
+                    if extra and not all(isinstance(x, ast.Name) and x.id == 'DEFAULT_CALENDAR' for x in extra):
+                        found.append((c, None))
+                        o.refute(f, c, c, f"the default resource is created as `{src(v)[:70]}`: with an explicit calendar instead of the default "
+                                          f"Monday-Friday 8-unit calendar")
+                    elif name_arg is not None:
+                        found.append((c, {'k': m['k'], 'k2': name_arg}))
+                elif isinstance(m['v'], ast.Call):
+                    # the default comes from a package helper: follow it.  A helper that answers from module-level / class-level
+                    # state (a cache of default resources) hands the SAME Resource object to every scheduler and calc() call
+                    tg = [ci for ci in ctx.cg.calls_in(f) if ci.node is m['v'] and ci.kind == 'call' and ci.targets]
+                    if len(tg) == 1 and len(tg[0].targets) == 1:
+                        h = tg[0].targets[0]
+                        exh = Expander(prog, h, ctx.typer)
+                        mod_names = {t_.id for st_ in h.module.tree.body if isinstance(st_, (ast.Assign, ast.AnnAssign))
+                                     for t_ in (st_.targets if isinstance(st_, ast.Assign) else [st_.target]) if isinstance(t_, ast.Name)}
+                        shared, fresh, other = [], [], []
+                        for r_ in [n for n in walk_no_nested(h.node) if isinstance(n, ast.Return) and n.value is not None]:
+                            rv = exh.expand(r_.value)
+                            roots = {x.id for x in ast.walk(rv) if isinstance(x, ast.Name) and x.id in mod_names and x.id not in h.params
+                                     and x.id != 'DEFAULT_CALENDAR'}
+                            if roots:
+                                shared.append((r_, sorted(roots)[0]))
+                            elif isinstance(rv, ast.Call) and isinstance(rv.func, ast.Name) and rv.func.id == 'Resource' and len(rv.args) == 1 \
+                                    and not rv.keywords and isinstance(rv.args[0], ast.Name) and rv.args[0].id in h.params:
+                                fresh.append(r_)
+                            else:
+                                other.append(r_)
+                        if shared:
+                            found.append((c, None))
+                            o.refute(f, c, c, f"the default resource comes from `{src(m['v'])[:50]}`, which answers from the module-level "
+                                              f"`{shared[0][1]}` ({h.qual}): one Resource object per name is shared by every scheduler and calc() call "
+                                              f"in the process, so a resource edited after one schedule is no longer the default Monday-Friday "
+                                              f"8-unit resource of the next")
+                        elif fresh and not other and len(m['v'].args) == 1:
+                            pi = h.params.index(exh.expand(fresh[0].value).args[0].id)
+                            if pi == 0:
+                                found.append((c, {'k': m['k'], 'k2': m['v'].args[0]}))
+        membership_form = set()
+        for n in walk_no_nested(f.node):
+            # `if k not in self.R: self.R[k] = Resource(k)`  ==  self.R.setdefault(k, Resource(k))
+            if isinstance(n, ast.Assign) and len(n.targets) == 1:
+                mt = match(f"self.{S['resources']}[$k]", n.targets[0])
+                mv = match("Resource($k2)", exf0.expand(n.value, cfg.node_of(n)))
+                if mt and mv:
+                    found.append((n, {'k': mt['k'], 'k2': mv['k2']}))
+                    membership_form.add(id(n))
+        if not found:
+            # spelled otherwise (subscript store under `not in`, dict.get + store, registration moved to calc / a helper)?
+            registering = [n for fq in prog.all_funcs() if fq.cls == S['cls'] and fq.name != '__init__' for n in walk_no_nested(fq.node)
+                           if (isinstance(n, ast.Subscript) and isinstance(n.ctx, ast.Store) and isinstance(n.value, ast.Attribute) and n.value.attr == S['resources'])
+                           or (isinstance(n, ast.Call) and isinstance(n.func, ast.Attribute) and n.func.attr in ('setdefault', 'update', '__setitem__')
+                               and isinstance(n.func.value, ast.Attribute) and n.func.value.attr == S['resources'])]
+            if registering:
+                o.undecided(f, f.node, 'setdefault', f"resources are registered in a form the rule does not follow (`{src(registering[0])[:60]}`)")
+            else:
+                o.refute(f, f.node, 'setdefault', f"no `self.{unmangle(S['resources'])}.setdefault(task.resource, Resource(task.resource))` in the pass "
+                                                  f"(and no other store into the resource table): resources named by tasks are not registered")
+            continue
+        task_p = f.params[1]
+        exf = Expander(prog, f, ctx.typer)
+        for c, m in found:
+            if m is None:
+                continue
+            cn_ = cfg.node_containing(c)
+            k1, k2 = exf.expand(m['k'], cn_), exf.expand(m['k2'], cn_)
+            if not (match(f"{task_p}.resource", k1) and same(k1, k2)):
+                o.refute(f, c, c, "resource table is not keyed by the task's resource name / default resource gets another name")
+                continue
+            conds = facts.node_conditions(prog, f, c, ctx.typer, expand=True)
+            body0 = [s_ for s_ in f.body if not (isinstance(s_, ast.Expr) and isinstance(s_.value, ast.Constant))]
+            entry = body0[0] if body0 and isinstance(body0[0], ast.If) and not body0[0].orelse and body0[0].body and \
+                isinstance(body0[0].body[-1], ast.Return) else None
+            if entry is not None:
+                # the early return that opens the pass (the memo test, in whatever form it is kept) guards everything below it
+                raw = [(t, p) for t, p in cfg.conditions(cn_) if not (t is entry.test and not p)]
+                conds = []
+                for t, p in raw:
+                    conds += facts.split_conj(exf.expand(t, cfg.node_containing(t)), p)
+            others = [(t, p) for t, p in conds if not facts.cond_is(t, p, f"{task_p}.id in $c", want=False)]
+            if id(c) in membership_form:
+                guard = [(t, p) for t, p in others if (lambda mm: mm is not None and same(exf.expand(mm['k'], cn_), k1))(
+                    facts.cond_is(t, p, f"$k in self.{S['resources']}", want=False))]
+                if not guard:
+                    o.refute(f, c, c, "the resource table entry of the task's resource is overwritten with a fresh default resource "
+                                      "(store not guarded by `name not in table`): a resource supplied by the caller is replaced")
+                    continue
+                others = [x for x in others if x not in guard]
+            if others:
+                o.refute(f, c, c, "default resource registration is conditional (" + ', '.join(facts.cond_texts(others)) +
+                         "): a resource named only by a summary or milestone task would be missing from the result")
+            else:
+                o.site(f, c, src(c))
+            # the resource handed to search / fill is this one
+        calc = prog.func(S['calc'])
+        rets = [n for n in walk_no_nested(calc.node) if isinstance(n, ast.Return)]
+        okret = False
+        for r in rets:
+            if isinstance(r.value, ast.Call) and getattr(r.value.func, 'id', '') == 'Schedule' and len(r.value.args) >= 3:
+                ex = Expander(prog, calc, ctx.typer)
+                a1 = ex.expand(r.value.args[1])
+                if match(f"list(self.{S['resources']}.values())", a1):
+                    okret = True
+                    o.site(calc, r, 'resources=' + src(a1))
+                else:
+                    o.refute(calc, r, r.value.args[1], "Schedule.resources is not list(self.__resources.values())")
+                    okret = True
+        if not okret:
+            o.undecided(calc, calc.node, 'return', "calc does not return Schedule(clone, resources, report) positionally")
+        init = prog.func(S['init'])
+        ok = False
+        for st, tgt, val in facts.attr_stores(init, S['resources']):
+            m = match("{} if $p is None else {$r.name: $r for $r in $p}", val) or \
+                match("{$r.name: $r for $r in $p} if $p is not None else {}", val) or \
+                match("{$r.name: $r for $r in $p} if $p else {}", val)
+            exi = Expander(prog, init, ctx.typer)
+            vx = exi.expand(val, cfg_of(init).node_of(st))
+            m = m or match("{} if $p is None else {$r.name: $r for $r in $p}", vx) or \
+                match("{$r.name: $r for $r in $p} if $p is not None else {}", vx) or \
+                match("{$r.name: $r for $r in $p} if $p else {}", vx) or match("{$r.name: $r for $r in $p or []}", vx) or \
+                match("{$r.name: $r for $r in $p or ()}", vx)
+            dcs = [n for n in ast.walk(vx) if isinstance(n, ast.DictComp)]
+            if not m and (match("{}", vx) or match("dict()", vx)):
+                # empty table filled by a loop: `for r in resources [or []]: self.R[r.name] = r`
+                for lp in [n for n in walk_no_nested(init.node) if isinstance(n, ast.For) and isinstance(n.target, ast.Name)]:
+                    src_ok = any(isinstance(x, ast.Name) and x.id in init.params for x in ast.walk(lp.iter))
+                    sts_ = [x for x in lp.body if isinstance(x, ast.Assign) and len(x.targets) == 1 and
+                            match(f"self.{S['resources']}[{lp.target.id}.name]", x.targets[0]) and match(lp.target.id, x.value)]
+                    if src_ok and len(sts_) == 1 and len(lp.body) == 1:
+                        m = {'loop': lp}
+            if m:
+                ok = True
+                o.site(init, st, src(val))
+            elif dcs and not any(match("$r.name", n.key) and isinstance(n.value, ast.Name) and match("$r.name", n.key)['r'].id == n.value.id for n in dcs):
+                o.refute(init, st, val, f"resource table is `{src(vx)[:70]}`: not keyed {{r.name: r}} (tasks find their resource by name)")
+                ok = True
+            else:
+                o.undecided(init, st, val, f"resource table is initialised as `{src(vx)[:70]}`, a form the rule does not follow")
+                ok = True
+        if not ok:
+            o.undecided(init, init.node, '__init__', "resource table initialisation not found")
+
+
+def default_calendar(ctx, o):
+    """Resource() defaults to DEFAULT_CALENDAR = Monday-Friday, 8 units, and the calendar's public accessors hand out copies"""
+    prog = ctx.prog
+    # DEFAULT_CALENDAR is one shared object: a public accessor that returns its internal weekday table itself (not a copy) lets
+    # any caller change the calendar of every default-created resource
+    try:
+        wc = prog.cls('WeeklyCalendar')
+    except Exception:
+        wc = None
+    if wc is not None and '__init__' in wc.methods:
+        init = wc.methods['__init__']
+        tables = set()
+        for n in walk_no_nested(init.node):
+            if isinstance(n, ast.Assign) and isinstance(n.value, (ast.Dict, ast.List, ast.DictComp, ast.ListComp)):
+                for t in n.targets:
+                    if isinstance(t, ast.Attribute) and isinstance(t.value, ast.Name) and t.value.id == init.params[0]:
+                        tables.add(t.attr)
+        funcs = [f_ for f_ in prog.all_funcs() if f_.cls == 'WeeklyCalendar' and f_.name != '__init__']
+        leaky = {}
+        for _ in range(3):
+            for f_ in funcs:
+                if f_.qual in leaky or not f_.params:
+                    continue
+                me = f_.params[0]
+                for r_ in [n for n in walk_no_nested(f_.node) if isinstance(n, ast.Return) and n.value is not None]:
+                    v = r_.value
+                    if isinstance(v, ast.Name):
+                        d_ = flow_of(f_).unique_def(v.id, cfg_of(f_).node_of(r_))
+                        v = d_.value if d_ is not None and d_.value is not None else v
+                    names = {lq[0].name for lq in leaky.values()}
+                    raw = isinstance(v, ast.Attribute) and isinstance(v.value, ast.Name) and v.value.id == me and \
+                        (v.attr in tables or v.attr in names)
+                    viacall = isinstance(v, ast.Call) and isinstance(v.func, ast.Attribute) and isinstance(v.func.value, ast.Name) and \
+                        v.func.value.id == me and not v.args and v.func.attr in names
+                    if raw or viacall:
+                        leaky[f_.qual] = (f_, r_, v)
+        n_pub = 0
+        for q, (f_, r_, v) in sorted(leaky.items()):
+            if not f_.name.startswith('_'):
+                n_pub += 1
+                o.refute(f_, r_, r_, f"WeeklyCalendar.{f_.name} returns the calendar's internal weekday table itself (`{src(v)}`), not a copy: a caller "
+                                     f"editing the result changes DEFAULT_CALENDAR, i.e. the calendar of every default-created resource "
+                                     f"(no longer Monday-Friday, 8 units)")
+        if not n_pub:
+            o.site(init, init.node, "no public accessor of WeeklyCalendar returns its internal table")
+    rinit = prog.func('resource.Resource.__init__')
+    a = rinit.node.args
+    defaults = dict(zip([x.arg for x in a.args][-len(a.defaults):], a.defaults)) if a.defaults else {}
+    d = defaults.get('calendar')
+    if isinstance(d, ast.Name) and d.id == 'DEFAULT_CALENDAR':
+        o.site(rinit, rinit.node, 'calendar=DEFAULT_CALENDAR')
+    elif isinstance(d, ast.Constant) and d.value is None:
+        # None default resolved in the body: `if calendar is None: calendar = DEFAULT_CALENDAR` / conditional expression
+        exr = Expander(prog, rinit, ctx.typer)
+        stores = [(st_, exr.expand(v_, cfg_of(rinit).node_of(st_))) for st_, t_, v_ in facts.attr_stores(rinit) if 'calendar' in t_.attr]
+        good_ = [st_ for st_, v_ in stores if match("DEFAULT_CALENDAR if calendar is None else calendar", v_) or
+                 match("calendar if calendar is not None else DEFAULT_CALENDAR", v_)]
+        if good_:
+            o.site(rinit, good_[0], 'calendar=None -> DEFAULT_CALENDAR')
+        elif any('DEFAULT_CALENDAR' in src(v_) for st_, v_ in stores):
+            o.undecided(rinit, rinit.node, 'calendar default', "Resource() resolves a missing calendar in a form the rule does not follow")
+        else:
+            o.refute(rinit, rinit.node, 'calendar default', "Resource() does not default to DEFAULT_CALENDAR")
+    elif d is None:
+        o.refute(rinit, rinit.node, 'calendar default', "Resource() has no default calendar: the default resource created by the schedulers cannot be built")
+    elif isinstance(d, ast.Call):
+        o.refute(rinit, rinit.node, 'calendar default', f"Resource() defaults to `{src(d)[:60]}`, not to DEFAULT_CALENDAR (Monday-Friday, 8 units)")
+    else:
+        o.undecided(rinit, rinit.node, 'calendar default', f"Resource() defaults its calendar to `{src(d)[:60]}`")
+    cal = prog.module('calendar')
+    dc = None
+    for st in cal.tree.body:
+        if isinstance(st, ast.Assign) and any(isinstance(t, ast.Name) and t.id == 'DEFAULT_CALENDAR' for t in st.targets):
+            dc = st
+    if dc is None:
+        o.fail("DEFAULT_CALENDAR not found")
+        return
+    kw = {k.arg: k.value for k in dc.value.keywords} if isinstance(dc.value, ast.Call) else {}
+    try:
+        days = sorted(ast.literal_eval(kw['days']))
+        units = ast.literal_eval(kw['units_per_day'])
+    except Exception:
+        days = units = None
+    if getattr(dc.value.func, 'id', None) == 'WeeklyCalendar' and days == [0, 1, 2, 3, 4] and units == 8 \
+            and 'start' not in kw and 'end' not in kw:
+        o.site(None, None, f"calendar.py:{dc.lineno} DEFAULT_CALENDAR = Monday-Friday, 8 units")
+    else:
+        o.refute(None, dc, dc.value, "DEFAULT_CALENDAR is not WeeklyCalendar(days=[0..4], units_per_day=8)")
